@@ -31,6 +31,8 @@ type semSpec struct {
 	TraceCtx int
 	// Extra is run on every case after the standard comparison (metamorphic relations etc.).
 	Extra func(c *Ctx, sc *semCase, obs map[string]observation)
+	// PerRun is run after each execution of a source (independent oracles on the real observation).
+	PerRun func(c *Ctx, sc *semCase, src string, v semVerdict)
 }
 
 type semRun struct {
@@ -134,6 +136,9 @@ func semRunCase(c *Ctx, s *semSpec, raw json.RawMessage) {
 		c.Rule("expect:" + sc.Expect.K)
 		v := runSem(&sc, src, s.CheckLog)
 		obs[mode] = v.Obs
+		if s.PerRun != nil {
+			s.PerRun(c, &sc, src, v)
+		}
 		if shape != "" {
 			c.Sample(map[string]interface{}{"source": src, "data": sc.Data, "expected": sc.Expect, "observed": v.Obs, "verdict": okOr(v.Sig, v.Msg)})
 		}
@@ -187,6 +192,39 @@ func init() {
 		Quick:    []semRun{{Cfg: "GenScopes.quick.cfg", Workers: 8}},
 		Thorough: []semRun{{Cfg: "GenScopes.thorough.cfg", Workers: 12}},
 		Rule: "GenScopes.tla: every nesting up to MaxDepth of {for, user-function call, partial, contentFor/contentOf with data, block helper with own context} x {the construct itself binds the outer name x, a let in its body binds x}; every level binds a fresh name y_i and probes x and an outer-only name t inside, and x and y_i after the level ends. TLC checks ScopeTheorem (stack depth restored, top scope's x and t unchanged, no y_i leaked) and ProbeTheorem (probe text = declarative expectation) on the reference semantics; real plush must render the same probe output. Direction 2: the context constructions/writes the real evaluator performs while rendering these programs are recorded by the verif hooks and validated by TLC against ContextTrace.tla. distinct_nontrivial = distinct nesting shapes.",
+	})
+	registerSem(semSpec{
+		ID: "C05", Module: "GenFaults", CheckLog: true,
+		Quick:    []semRun{{Cfg: "GenFaults.quick.cfg", Workers: 8}},
+		Thorough: []semRun{{Cfg: "GenFaults.thorough.cfg", Workers: 12}},
+		Rule: "GenFaults.tla: a fault (failing Go helper returning a sentinel error, division by zero, call of an unknown function, index out of range) placed at every position = 19 statement contexts (emit, silent tag, let, assignment, if/else body, loop body incl. only the second iteration, function body and return value, block helper with caller's and own context, contentFor block, contentOf default block, partial, nested partial, layout, partial data) applied to a stack of <= MaxNest of 35 expression contexts (both operands of all 13 operators incl. short-circuited ones, !, array/hash element, index and indexed, argument of Go helper / probe / user function, if and else-if condition, loop iterable). TLC checks NoSilentFailure on the reference semantics. Real-code oracle, independent of the model: whenever the instrumented failing helper was actually invoked, Render must return a non-nil error with errors.Is(err, sentinel) and the empty string; additionally the model's outcome (error or exact output) and probe sequence must match. distinct_nontrivial = distinct (fault, statement context, expression contexts) shapes in which the fault was really reached.",
+		Shape: func(sc *semCase) string { return "" }, // counted in PerRun: only when the fault was reached
+		PerRun: func(c *Ctx, sc *semCase, src string, v semVerdict) {
+			reached := false
+			for _, cl := range v.Calls {
+				if cl.F == "fail" {
+					reached = true
+				}
+			}
+			if sc.Expect.K == "err" || reached {
+				c.mu.Lock()
+				c.shapes[sc.Shape]++
+				c.mu.Unlock()
+				c.Sample(map[string]interface{}{"source": src, "fault_reached": reached, "expected": sc.Expect.K, "observed": v.Obs})
+			}
+			if !reached || v.Obs.Panic != "" || v.Obs.Hang {
+				return
+			}
+			o := v.Obs
+			switch {
+			case !o.IsErr:
+				c.Fail("invoked-but-no-error:"+sc.Shape, fmt.Sprintf("%s: the failing helper was invoked but Render succeeded with %q", src, trunc(o.Out, 80)), map[string]interface{}{"source_text": src, "src": sc.Src, "data": sc.Data, "parts": sc.PartsR, "expect": sc.Expect, "observed": o})
+			case !o.Wraps:
+				c.Fail("invoked-not-wrapped:"+sc.Shape, fmt.Sprintf("%s: error does not wrap the helper's error: %s", src, o.Err), map[string]interface{}{"source_text": src, "src": sc.Src, "data": sc.Data, "parts": sc.PartsR, "expect": sc.Expect, "observed": o})
+			case o.Out != "":
+				c.Fail("invoked-partial-output:"+sc.Shape, fmt.Sprintf("%s: error returned together with output %q", src, trunc(o.Out, 80)), map[string]interface{}{"source_text": src, "src": sc.Src, "data": sc.Data, "parts": sc.PartsR, "expect": sc.Expect, "observed": o})
+			}
+		},
 	})
 	registerSem(semSpec{
 		ID: "C07", Module: "GenIf", CheckLog: true,
